@@ -8,6 +8,7 @@ CONSTANT Pads = {0, 1, 2, 3, 4, 8}
 CONSTANT SzAs = {0, 1, 3, 44}
 CONSTANT SzBs = {0, 2, 155381}
 CONSTANT WrapDefect = FALSE
+CONSTANT FullW = 16
 INIT Init
 NEXT Next
 INVARIANT ClassDecides
